@@ -32,8 +32,10 @@ theorem eq_loop (v w pv pw : List Rat) (h : pv.length = pw.length) (d : Rat) :
       have ht : ((1 : Rat) / 10000000000) = tol := rfl
       simp only [h1, h2, pyAbs_eq, ht] at ih' ⊢
       by_cases hc : absR (a - b) < tol
-      · simp only [hc, not_true_eq_false, if_false, if_true, ih']
-      · simp only [hc, not_false_eq_true, if_true, if_false]
+      · have hc' : ¬ tol ≤ absR (a - b) := Rat.not_le.mpr hc      -- (absorbs `diff >= tol` spellings)
+        simp only [hc, hc', not_true_eq_false, if_false, if_true, ih']
+      · have hc' : tol ≤ absR (a - b) := Rat.not_lt.mp hc
+        simp only [hc, hc', not_false_eq_true, if_true, if_false]
 
 theorem tie_Individual_eq (v w : List Rat) : Individual_eq v w = indEq v w := by
   have := eq_loop v w [] [] rfl 1
